@@ -178,6 +178,11 @@ def inflations(data, limit=80):
             if position >= 0:
                 out.append(('offset' + offset.decode(), data[:position] + offset + data[position + len(zone):]))
                 break
+    for zone in (b' GMT', b' UTC', b' +0000', b'Z'):
+        position = data.find(zone)
+        if position >= 0:
+            out.append(('zone-removed', data[:position] + data[position + len(zone):]))       # a naive date
+            break
     years = [(start, stop) for start, stop in digits if stop - start == 4]
     if years:
         start, stop = years[0]
